@@ -109,6 +109,11 @@ def run_tlc(module, cfg, tag, workers=None, extra=None, env=None, timeout=1800, 
     out = "".join(rest)
     r = {"out": out, "rc": p.returncode, "wall_s": time.time() - t0, "printed": printed, "printed_counts": counts}
     m = re.search(r"(\d+) states generated, (\d+) distinct states found", out)
+    if not m:
+        # no final summary (the run was cut by its time budget): the last progress line
+        pm = re.findall(r"Progress\(\d+\) at [^:]+:\d+:\d+: ([\d,]+) states generated \([^)]*\), ([\d,]+) distinct states found", out)
+        if pm:
+            m = re.match(r"(\d+) (\d+)", "%s %s" % (pm[-1][0].replace(",", ""), pm[-1][1].replace(",", "")))
     r["states"] = int(m.group(2)) if m else 0
     r["transitions"] = int(m.group(1)) if m else 0
     m = re.search(r"depth of the complete state graph search is (\d+)", out)
